@@ -227,7 +227,7 @@ def run(tier, seed, replay=None):
             for force in [dict(symbols=2, data_only=True, tf='5m'), dict(symbols=2, data_only=True, tf='3m'), dict(symbols=2, data_only=False, tf='5m'),
                           dict(symbols=1, data_only=False, tf='5m'), dict(symbols=1, data_only=False, tf='15m')]:
                 for fast_ in (False, True):
-                    for _ in range(4):
+                    for _ in range(10 if force['data_only'] else 4):
                         p = gen_pair(rng, E, fast=fast_, force=force)
                         for sc_ in p['scripts'].values():
                             sc_['raise_at'] = None; sc_['entry_every'] = 2; sc_['offs'] = [-1, 0, 1]
